@@ -296,10 +296,12 @@ run (input / constraint file, `#bad#` exclusion) -/
 structure SolverInv (env : Env) (I : St → Prop) : Prop where
   setC : ∀ s i b, I s → I (setComplete s i b)
   rem : ∀ s i up s', removeDists 400 s i up = .ok s' → I s → I s'
-  addRepo : ∀ s0 spec m key s src reason s' out, getDist env s0 spec = some m →
-    addDist 400 s (key, some m) src reason env.order = .ok (s', out) → I s → I s'
-  addMeta : ∀ m key s s' out, m.isMeta = true →
-    addDist 400 s (key, some m) none none env.order = .ok (s', out) → I s → I s'
+  addRepo : ∀ s0 spec m key s src reason s' out,
+    addDist 400 s (key, some m) src reason env.order = .ok (s', out) → getDist env s0 spec = some m → key = normName m.name →
+    I s → I s'
+  addMeta : ∀ m key s s' out,
+    addDist 400 s (key, some m) none none env.order = .ok (s', out) → m.isMeta = true → key = normName m.name →
+    I s → I s'
 
 theorem SolverInv.withPins {env : Env} {I : St → Prop} (h : SolverInv env I) (pins : List (Name × Req)) (b : Bool) :
     SolverInv { env with pins := pins, usePins := b } I :=
@@ -342,7 +344,7 @@ theorem attempt_inv (rec : Rec) (hr : InvRec I rec) (s : St) (i : Id) (src : Opt
     split
     · exact hs
     · rename_i s1 out hadd
-      have hs1 : I s1 := hI.addRepo _ _ _ _ _ _ _ s1 out hgd (liftM_ok hadd) hs
+      have hs1 : I s1 := hI.addRepo _ _ _ _ _ _ _ s1 out (liftM_ok hadd) hgd rfl hs
       apply foldl_thenOk_inv I (fun x s => rec s x src (depth+1) maxDown path)
       · intro x s hs; exact hr _ _ _ _ _ _ hs
       · exact hs1
@@ -367,7 +369,7 @@ theorem walkBack_inv (rec : Rec) (hr : InvRec I rec) (s1 : St) (i : Id)
     obtain ⟨s3, h3, hstep⟩ := bind_ok hstep
     have hs2 : I s2 := hI.rem _ _ _ _ (liftM_ok h2) hs
     have hs3 : I s3 := hI.rem _ _ _ _ (liftM_ok h3) (hI.setC _ _ _ hs2)
-    have hs4 : I s4 := hI.addMeta _ _ _ s4 badNodes rfl (liftM_ok hstep) (hI.setC _ _ _ hs3)
+    have hs4 : I s4 := hI.addMeta _ _ _ s4 badNodes (liftM_ok hstep) rfl rfl (hI.setC _ _ _ hs3)
     have hr2 : ∀ b, I (thenOk (rec s4 i none depth (maxDown-1) path)
         fun s5 => rec s5 b none depth (maxDown-1) path).1 :=
       fun b => thenOk_inv _ _ _ (hr _ _ _ _ _ _ hs4) (fun s5 h5 => hr _ _ _ _ _ _ h5)
@@ -433,7 +435,7 @@ theorem addAll_inv (s : St) (ms : List Meta) (s' : St) (out : List Id)
       obtain ⟨r, hr, hb⟩ := bind_ok hb
       cases hb
       apply ih _ _ (fun m' hm' => hl m' (List.mem_cons_of_mem _ hm')) ?_ h
-      exact hI.addMeta m _ _ r.1 r.2 (hl m List.mem_cons_self) (by rw [liftM_ok hr]) hacc
+      exact hI.addMeta m _ _ r.1 r.2 (by rw [liftM_ok hr]) (hl m List.mem_cons_self) rfl hacc
   exact this ms (s, []) (s', out) hms hs h
 
 theorem go_inv (p : Problem) : ∀ (ns : List Id) (s : St), I s → I (performCompile.go p env ns s).1
@@ -503,9 +505,9 @@ def FromRepo (env : Env) (m : Meta) : Prop := m.isMeta = true ∨ ∃ s spec, ge
 theorem mdP_solverInv (env : Env) : SolverInv env (MdP (FromRepo env)) where
   setC := fun s i b h => setComplete_mdP s i b h
   rem := fun s i up s' h hs => (graph_mdP (FromRepo env) 400).1 s i up s' h hs
-  addRepo := fun s0 spec m key s src reason s' out hg h hs =>
+  addRepo := fun s0 spec m key s src reason s' out h hg _ hs =>
     (graph_mdP (FromRepo env) 400).2.1 _ _ _ _ _ _ s' out h hs (fun m' e => by cases e; exact Or.inr ⟨s0, spec, hg⟩)
-  addMeta := fun m key s s' out hm h hs =>
+  addMeta := fun m key s s' out h hm _ hs =>
     (graph_mdP (FromRepo env) 400).2.1 _ _ _ _ _ _ s' out h hs (fun m' e => by cases e; exact Or.inl hm)
 
 /-- **compileRoots_provenance** -/
